@@ -1108,6 +1108,10 @@ func (env *specEnv) closedAtEntry(v Val) Val {
 	switch typeUnder(v.T).(type) {
 	case *types.Pointer, *types.Slice, *types.Map:
 		e.rangeFacts = append(e.rangeFacts, sor(seq(v.L[0], "0"), "(select "+quoteSym("$alloc")+" "+v.L[0]+")"))
+		if _, isSlice := typeUnder(v.T).(*types.Slice); isSlice && len(v.L) == 4 {
+			// a slice with elements has a backing array
+			e.rangeFacts = append(e.rangeFacts, sor(seq(v.L[2], e.idxConst(0)), snot(seq(v.L[0], "0"))))
+		}
 	}
 	return v
 }
